@@ -151,6 +151,8 @@ _KW_FLOORS_QUICK = {
     "kw_tree:var:numeric_only": 10, "kw_tree:var:skipna": 56,
 }
 _KW_FLOORS_THOROUGH = {      # ~40 % of thorough seed 0
+    "kw_tree:cov:min_periods": 85, "kw_tree:corr:min_periods": 83, "covcorr_pair_with_2_joint_rows": 190,
+    "covcorr_pair_with_2_joint_rows&min_periods": 90,
     "kw_rowwise:all:axis": 46, "kw_rowwise:any:axis": 43, "kw_rowwise:count:axis": 62,
     "kw_rowwise:idxmax:axis": 45, "kw_rowwise:idxmin:axis": 43, "kw_rowwise:max:axis": 55,
     "kw_rowwise:mean:axis": 55, "kw_rowwise:min:axis": 58, "kw_rowwise:nunique:axis": 70,
@@ -1157,7 +1159,7 @@ def _canonical(fam, feats, sym, cur):
     # R2: chunk rows of mixed column kinds (or bool/str/datetime next to the NaN of an empty partition) are object
     # dtype; min/max(skipna=False) over object columns loses NaN / picks a wrong extreme
     if fam == "min/max" and "skipna=False" in F and sym in ("lost-NA", "values") and "nullable" not in classes \
-            and cols & set("ebtk"):
+            and (cols & set("ebtk") or "bool" in (cur.get("cast") or {}).values()):
         return "min/max:skipna=False&object-chunk-rows:wrong-value"
     # R5: an empty / all-NA partition's NaN chunk result changes the dtype or cannot be compared with str/datetime
     if fam == "min/max" and sym == "dtype" and classes <= {"nullable"} and F & {"empty-partition", "all-NA-partition"}:
@@ -1258,6 +1260,11 @@ def _attribute(case, out):
             if nullable and _repro(_variant(cur, cast=nullable), s):
                 cur = _variant(cur, cast=nullable)
                 nullable = {}
+            if "m" in nullable and fam == "min/max" and _repro(_variant(cur, cast={"m": "bool"}), s):
+                # a nullable boolean WITHOUT NA that fails just like a plain bool column (object dtype chunk rows next
+                # to numeric columns, R2) is not a nullable-dtype mechanism
+                cur = _variant(cur, cast={"m": "bool"})
+                del nullable["m"]
             classes = {CLASS[c] for c in cols if CLASS[c] and (CLASS[c] != "nullable" or c in nullable)}
             if len(cols) > 1 and not multi:
                 feats.append("multi-column")
